@@ -19,14 +19,16 @@ package app
 //@ fresh-override RequestContext.binder ignore :: engine-scoped configuration
 //@ fresh-override RequestContext.validator ignore :: engine-scoped configuration
 
+// (C12: the chain interpreter starts a recycled context at index -1 whatever state - aborted included - it was in.)
 //@ func RequestContext.ResetWithoutConn(ctx)
-//@   props C09
+//@   props C09, C12
 //@   fresh-except Request.isTLS :: connection-scoped, deliberately kept across requests on one connection
 //@   replay-go ctx := NewContext(0); ctx.Exile(); ctx.ResetWithoutConn(); if ctx.IsExiled() { fmt.Println("VCGO-VIOLATED IsExiled() is still true after ResetWithoutConn") }
 //@   requires ctx.Request.Header.trailer == nil || ctx.Request.Header.trailer != ctx.Response.Header.trailer
 //@   requires ctx.Request.body == nil || ctx.Request.body != ctx.Response.body
 //@   modifies *
-//@   top-ensures isFresh(ctx)
+//@   top-ensures @C09 isFresh(ctx)
+//@   top-ensures @C12 ctx.index == -1 && len(ctx.handlers) == 0
 
 //@ func RequestContext.Reset(ctx)
 //@   props C09
